@@ -63,6 +63,14 @@ def constructions(key, data, rs):
     t = out[0][1].copy()
     t.relabel_nodes()
     out.append(("relabelled_copy", t))
+    if len(key[1]) > 1:
+        t3 = out[0][1].copy()
+        outl = list(t3.outliers)
+        for dp in outl:
+            t3.remove_data_point_from_outliers(dp)
+        for dp in reversed(outl):
+            t3.add_data_point_to_outliers(dp)
+        out.append(("outliers_stored_in_reverse_order", t3))
     # reach the same state through a data-point move and back
     t2 = out[1][1].copy()
     _, conc = absstate.project(t2, full=False)
